@@ -75,6 +75,9 @@ TEMPLATES = {
     "display_sealed": "pub fn probe(t: &SealedToken<V, Local, M>) -> String {{ format!(\"{{}}\", t) }}",
     "display_unsealed": "pub fn probe(t: &UnsealedToken<V, Local, M>) -> String {{ format!(\"{{}}\", t) }}",
     "serde_sealed": "pub fn probe(t: &SealedToken<V, Public, M>) {{ let _ = serde_json::to_string(t); }}",
+    # the unverified footer only through the accessor named unverified: not by auto-deref, AsRef or Borrow
+    "deref_sealed": "pub fn probe(t: &SealedToken<V, Public, M, Vec<u8>>) -> usize {{ t.len() }}",
+    "asref_sealed": "pub fn probe(t: &SealedToken<V, Local, M, Vec<u8>>) -> usize {{ let f: &Vec<u8> = t.as_ref(); f.len() }}",
     "serde_unsealed": "pub fn probe(t: &UnsealedToken<V, Public, M>) {{ let _ = serde_json::to_string(t); }}",
     # the same with claims and footer that are themselves serialisable (paseto-json's claims, no footer)
     "serde_unsealed_claims": "pub fn probe(t: &UnsealedToken<V, Public, paseto_json::RegisteredClaims>) {{ let _ = serde_json::to_string(t); }}",
